@@ -193,6 +193,9 @@ harnesses! {
         (ops_data::d_ack_upd, 7),
         (ops_data::d_gossip_custom, 7),
         (ops_data::d_broadcast_custom, 7),
+        (ops_data::d_ack_custom2, 7),
+        (ops_data::d_fwd_ack_2, 7),
+        (h_misc::c06_timer_crafted_suspect, 7),
     ],
     native: [
         h_members::e4_can_change,
